@@ -357,4 +357,59 @@ example : WF ⟨⟨5, 0, 1, 0x7FF, 3, 16383, 13⟩, ⟨9, 17, 2, 0xABCD, 0xBEEF,
   refine ⟨by decide, ?_, by decide⟩
   unfold WFSec; decide
 
+/-- **the encoding is injective for a fixed timestamp length**: two valid telemetry packets whose
+    timestamps have the same length and whose octets are equal are the same packet (corollary of
+    `C03_roundtrip`). The packet does not carry the timestamp length (the decoder is told it), so the
+    hypothesis `hl` is needed: see the `example` below for two different valid packets with
+    timestamps of different length and identical octets. -/
+theorem C03_pack_injective (a b : Tm) (wa : WF a) (wb : WF b)
+    (hl : a.sec.timestamp.length = b.sec.timestamp.length)
+    (h : Spec.octets a = Spec.octets b) : a = b := by
+  have r1 := C03_roundtrip a wa []
+  have r2 := C03_roundtrip b wb []
+  rw [h, hl, r2] at r1
+  exact (Except.ok.inj r1).symm
+
+/-- the same for the library's `pack()` and as an iff: valid telemetry packets with timestamps of one
+    length are equal exactly when they pack to the same octets -/
+theorem C03_pack_eq_iff (a b : Tm) (wa : WF a) (wb : WF b)
+    (hl : a.sec.timestamp.length = b.sec.timestamp.length) : a.pack = b.pack ↔ a = b := by
+  constructor
+  · intro h
+    rw [C03_pack_exact a wa, C03_pack_exact b wb] at h
+    exact C03_pack_injective a b wa wb hl (Except.ok.inj h)
+  · rintro rfl; rfl
+
+-- non-vacuity of the injectivity hypotheses: two distinct valid packets with 3-octet timestamps
+-- (they differ in the last timestamp octet only), whose encodings differ
+example : WF ⟨⟨5, 0, 1, 0x7FF, 3, 16383, 13⟩, ⟨9, 17, 2, 0xABCD, 0xBEEF, [1, 2, 3]⟩, [7, 8]⟩ ∧
+    WF ⟨⟨5, 0, 1, 0x7FF, 3, 16383, 13⟩, ⟨9, 17, 2, 0xABCD, 0xBEEF, [1, 2, 4]⟩, [7, 8]⟩ ∧
+    Spec.octets ⟨⟨5, 0, 1, 0x7FF, 3, 16383, 13⟩, ⟨9, 17, 2, 0xABCD, 0xBEEF, [1, 2, 3]⟩, [7, 8]⟩ ≠
+      Spec.octets ⟨⟨5, 0, 1, 0x7FF, 3, 16383, 13⟩, ⟨9, 17, 2, 0xABCD, 0xBEEF, [1, 2, 4]⟩, [7, 8]⟩ := by
+  have w1 : WF ⟨⟨5, 0, 1, 0x7FF, 3, 16383, 13⟩, ⟨9, 17, 2, 0xABCD, 0xBEEF, [1, 2, 3]⟩, [7, 8]⟩ := by
+    refine ⟨by decide, ?_, by decide⟩
+    unfold WFSec; decide
+  have w2 : WF ⟨⟨5, 0, 1, 0x7FF, 3, 16383, 13⟩, ⟨9, 17, 2, 0xABCD, 0xBEEF, [1, 2, 4]⟩, [7, 8]⟩ := by
+    refine ⟨by decide, ?_, by decide⟩
+    unfold WFSec; decide
+  refine ⟨w1, w2, fun h => ?_⟩
+  have := C03_pack_injective _ _ w1 w2 rfl h
+  exact absurd this (by decide)
+
+-- the equal-length hypothesis cannot be dropped: these two valid packets differ (3-octet timestamp
+-- and 2 source data octets versus 2-octet timestamp and 3 source data octets) and have the same octets
+example : WF ⟨⟨5, 0, 1, 0x7FF, 3, 16383, 13⟩, ⟨9, 17, 2, 0xABCD, 0xBEEF, [1, 2, 3]⟩, [7, 8]⟩ ∧
+    WF ⟨⟨5, 0, 1, 0x7FF, 3, 16383, 13⟩, ⟨9, 17, 2, 0xABCD, 0xBEEF, [1, 2]⟩, [3, 7, 8]⟩ ∧
+    ⟨⟨5, 0, 1, 0x7FF, 3, 16383, 13⟩, ⟨9, 17, 2, 0xABCD, 0xBEEF, [1, 2, 3]⟩, [7, 8]⟩ ≠ (⟨⟨5, 0, 1, 0x7FF, 3, 16383, 13⟩, ⟨9, 17, 2, 0xABCD, 0xBEEF, [1, 2]⟩, [3, 7, 8]⟩ : Tm) ∧
+    Spec.octets ⟨⟨5, 0, 1, 0x7FF, 3, 16383, 13⟩, ⟨9, 17, 2, 0xABCD, 0xBEEF, [1, 2, 3]⟩, [7, 8]⟩ =
+      Spec.octets ⟨⟨5, 0, 1, 0x7FF, 3, 16383, 13⟩, ⟨9, 17, 2, 0xABCD, 0xBEEF, [1, 2]⟩, [3, 7, 8]⟩ := by
+  refine ⟨?_, ?_, by decide, ?_⟩
+  · refine ⟨by decide, ?_, by decide⟩
+    unfold WFSec; decide
+  · refine ⟨by decide, ?_, by decide⟩
+    unfold WFSec; decide
+  · have : Spec.body ⟨⟨5, 0, 1, 0x7FF, 3, 16383, 13⟩, ⟨9, 17, 2, 0xABCD, 0xBEEF, [1, 2, 3]⟩, [7, 8]⟩ = Spec.body ⟨⟨5, 0, 1, 0x7FF, 3, 16383, 13⟩, ⟨9, 17, 2, 0xABCD, 0xBEEF, [1, 2]⟩, [3, 7, 8]⟩ := by
+      simp [Spec.body, Spec.sec, Spec.secFixed]
+    simp only [Spec.octets, this]
+
 end SpVerif.Props.C03
